@@ -46,7 +46,7 @@ def names(kind, comps, idx):
     return [m.get(c, c) for c in comps]
 
 
-def do_call(dd, method, fn, overwrite):
+def do_call(dd, method, fn, overwrite, multi=0):
     if method == 'write_txt':
         dd.write_txt(fn, TEXT, overwrite=overwrite)
     elif method == 'write_jsonfile':
@@ -56,7 +56,8 @@ def do_call(dd, method, fn, overwrite):
     elif method == 'update_jsondict':
         dd.update_jsondict(fn, {'added': 5})
     elif method == 'delete_files':
-        dd.delete_files([fn])
+        # a protected name anywhere in the list must make the whole call refuse, before anything is removed
+        dd.delete_files([[fn], [USER, fn], [fn, USER], [USER, fn, 'does-not-exist']][multi % 4])
     elif method.startswith('open_'):
         mode = {'open_w': 'w', 'open_a': 'a', 'open_x': 'x', 'open_rplus': 'r+', 'open_wb': 'wb', 'open_ab': 'ab',
                 'open_rbplus': 'rb+'}[method]
@@ -96,7 +97,7 @@ def _job(args):
                             fn = os.path.join(os.path.abspath(p), s)
                         before = disk.snapshot(root)
                         try:
-                            do_call(a.datadir, method, fn, ow)
+                            do_call(a.datadir, method, fn, ow, multi=(ri + k0 + seed) if verdict == 'Refused' else 0)
                             got = 'ok'
                         except OSError:
                             got = 'OSError'
